@@ -173,6 +173,61 @@ h_base_only(void)
 	WITNESS();
 }
 
+/* time-only input with --base: whatever subset of h/m/s the input leaves
+ * unspecified is filled from the base (midnight for a pure date, the base's
+ * time of day for a date-time), the clock is never read */
+void
+h_base_time(void)
+{
+	ND(i32, vby);
+	ND(i32, vbm);
+	ND(i32, vbd);
+	ND(u8, vbh);
+	ND(u8, vbmi);
+	ND(u8, vbs);
+	ND(u8, vsand);
+	ND(u8, vh);
+	ND(u8, vmi);
+	ND(u8, vs);
+	ND(u8, vflags);
+	struct dt_dt_s b;
+	struct strpdt_s d, r;
+
+	ASSUME(ref_valid_ymd(vby, vbm, vbd));
+	ASSUME(vbh < 24 && vbmi < 60 && vbs < 60 && vsand <= 1);
+	ASSUME(vh < 24 && vmi < 60 && vs < 60 && vflags < 8);
+	memset(&b, 0, sizeof(b));
+	b.d.typ = DT_YMD;
+	b.d.ymd.y = vby, b.d.ymd.m = vbm, b.d.ymd.d = vbd;
+	if (vsand) {
+		b.t.hms.h = vbh, b.t.hms.m = vbmi, b.t.hms.s = vbs;
+		dt_make_sandwich(&b, DT_YMD, DT_HMS);
+	} else {
+		vbh = vbmi = vbs = 0;
+		dt_make_d_only(&b, DT_YMD);
+	}
+	dt_set_base(b);
+	memset(&d, 0, sizeof(d));
+	d.st.flags.h_set = vflags & 1, d.st.flags.m_set = (vflags >> 1) & 1, d.st.flags.s_set = (vflags >> 2) & 1;
+	d.st.h = d.st.flags.h_set ? vh : 0;
+	d.st.m = d.st.flags.m_set ? vmi : 0;
+	d.st.s = d.st.flags.s_set ? vs : 0;
+	r = massage_strpdt(d);
+	CHECK(vf_clock_reads == 0, "with --base the clock is never read for time-only input");
+	if (d.st.flags.h_set) {
+		CHECK(r.st.h == d.st.h && r.st.m == d.st.m && r.st.s == d.st.s, "a given hour leaves the time as written");
+	} else {
+		CHECK(r.st.h == vbh, "a missing hour comes from the base (midnight for a pure date)");
+		if (d.st.flags.m_set) {
+			CHECK(r.st.m == d.st.m && r.st.s == d.st.s, "given minutes stay");
+		} else {
+			CHECK(r.st.m == vbmi, "missing minutes come from the base");
+			CHECK(d.st.flags.s_set ? r.st.s == d.st.s : r.st.s == vbs, "seconds given stay, missing come from the base");
+		}
+	}
+	WITNESS();
+}
+
 /* a time of day is put on the time line through the base date (zone
  * conversions of time-only input): with --base the clock is never read and
  * the instant is the base day's */
